@@ -21,7 +21,7 @@ CHECKS = {
          "upgrade is Some iff the value has not been destroyed (group members count as destroyed from the moment the group teardown starts); dead Weaks report 0/0; allocation valid until last Weak drop.", "4 C05"),
  "C06": ("model-based stateful property testing (proptest); oracle: handle-instance ledger vs strong_count/weak_count/ptr_eq/as_ptr after every op and inside destructors",
          "Counts equal the number of existing handle instances at every quiescent point and at destructor observation points; identity stable.", "4 C06"),
- "C07": ("differential property testing (proptest): generated straight-line programs interpreted over cactusref and over std::rc; oracle: equality of observation traces and ordered destructor logs",
+ "C07": ("differential property testing (proptest): generated straight-line programs interpreted over cactusref and over std::rc; oracle: equality of observation traces (results, counts, pointer-equality relations, formatted text, hashes, how often each handle-level comparison / hash / format call forwards to the payload) and ordered destructor logs",
          "Same results from every shared API call and the same sequence of value destructions as std::rc::{Rc,Weak} of the installed toolchain, over generated no-adoption programs with values owning strong and Weak handles, payload alignments 8..128, a panicking Clone, and the shared API on non-Eq / zero-sized / odd-sized payloads (f64 with NaN, f32, u8, (), [u8;3], Option<f64>, (u8,f32)).", "4 C07"),
  "C08": ("model-based stateful property testing (proptest); oracle: link-table snapshots (hook H1) vs adoption ledger after every op",
          "Tables equal the multiset of adoptions implied by the calls, mirrored on both ends, never naming a destroyed object; SAFE, CONSUME and ELIDE (known finding excluded) histories.", "4 C08"),
